@@ -60,6 +60,23 @@ def toCompact : DNA → Nest
   | .mk v [] => .v v
   | d => toNested d
 
+/-- One node of the compact form: a node without children is its bare value (also `None`). -/
+def nestNodeC : Val → List Nest → Nest
+  | v, [] => .v v
+  | v, k :: ks => nestNode v (k :: ks)
+
+mutual
+  /-- The `value` of the compact JSON form exactly as `sym_jsonify(compact=True, type_info=False)`
+  recurses (base.py:1403-1420): a node without children is its bare value at EVERY depth, so an
+  empty DNA below the root is `null` (`toCompact` above does this for the root only; the two
+  agree unless an empty DNA is a child). -/
+  def toCompactDeep : DNA → Nest
+    | .mk v cs => nestNodeC v (toCompactDeepList cs)
+  def toCompactDeepList : List DNA → List Nest
+    | [] => []
+    | c :: cs => toCompactDeep c :: toCompactDeepList cs
+end
+
 def numVal : Nest → Option Val
   | .v (.int i) => some (.int i)
   | .v (.flt n d) => some (.flt n d)
